@@ -8,7 +8,7 @@ PROP = dict(
          'seqlock:load_solo_w16a8s2,load_solo_w16a8s3,load_solo_w16a8s4,load_solo_w16a8s8',
          'lr:read_solo', 'vhm:get_solo_t2,get_solo_n2',
          'hms:find,emplace_or_get,erase,erase_it,iter_inc', 'hmm:find_b2_l3_m0,find_b2_l3_m1,inc_b2_l3_m0_fc,erase_it_b2_l3_m0_fc,insert_b2_l3_m0_fc,erase_key_b2_l3_m0_fc',
-         'nq:push_c1,push_c2,pop_c1,pop_c2,push_race_c1', 'scq:enq_c1_f0,enq_c2_f0,deq_c1_f0,deq_c2_f0,enq_c1_f1_anygap,deq_c1_f1_anygap,enq_overtaken_c2,deq_stale_c2', 'nbq:push_c2,pop_c2',
+         'nq:push_c1,push_c2,pop_c1,pop_c2,push_race_c1', 'scq:enq_c1_f0,enq_c2_f0,deq_c1_f0,deq_c2_f0,enq_c1_f1_anygap,deq_c1_f1_anygap,deq_c1_f1_anygap_r0,deq_c1_f1_anygap_r2,enq_overtaken_c2,deq_stale_c2', 'nbq:push_c2,pop_c2',
          'hp:acq_k2,acq_k3', 'stampit_guard:local,global', 'stampq:push,remove,mid_push,mid_remove_1,mid_remove_2a,mid_remove_2b',
          'msq:push,pop_node,try_pop_e2e,pop_e2e', 'ram:push_e1,push_e2,pop_e1_r1,pop_e2_r0,pop_e2_r1', 'kbq:push_k1_s123,push_k2_s123,pop_k1_s123,pop_k2_s123,find_index_E_k3,find_index_N_k3',
          'kfq:push_k1,push_k2,pop_k1,pop_k2,advance_head_seq_k2,advance_tail_seq_k2', 'he:g_acquire_K2,g_acquire_if_equal_K2',
